@@ -81,6 +81,9 @@ def json_values(tier, seed):
         yield '{"%s": 0, "status": "ok"}' % w
         yield '{"a": 1, "%s": [2, {"%s": null}], "z": 3}' % (w, w)
     yield '[[[[1]]]]'
+    # "nested arbitrarily": beyond what the recursive rule walk can do within the interpreter's default recursion limit (finding F31)
+    yield '{"deep": ' * 200 + '1' + '}' * 200
+    yield '[' * 200 + '1' + ']' * 200
     yield '{"a": {"b": {"c": {"d": [1, {"e": null}]}}}}'
     yield '[{"a": [1, 2, {"b": [true, false, null]}], "c": -0.5}, [], {}, [[]], [{}]]'
     rnd = random.Random(seed)
